@@ -185,6 +185,41 @@ pub fn check(case: &Case, idx: u64, acc: &mut Acc) {
             // ---- dual data: sensitivity to datum j == spline solved on unit data j
             let ygen: Vec<Rat> = (0..n).map(gen_rat).collect();
             let cgen = exact_c(&ygen);
+            // ---- the order in which the interior sites are listed is immaterial (only the first and last site
+            // carry the end conditions): reversed and rotated interior sites give the same spline
+            if n >= 4 {
+                let y_f: Vec<f64> = ygen.iter().map(|r| r.f()).collect();
+                let cmaxg = cgen.iter().map(|r| r.f().abs()).fold(1.0, f64::max);
+                let inner: Vec<usize> = (1..n - 1).collect();
+                let mut perms: Vec<Vec<usize>> = vec![inner.iter().rev().cloned().collect()];
+                let mut rot = inner.clone();
+                rot.rotate_left(1);
+                perms.push(rot);
+                let mut sw = inner.clone();
+                sw.swap(0, inner.len() - 1);
+                perms.push(sw);
+                for (pi, pm) in perms.iter().enumerate() {
+                    let mut order = vec![0usize];
+                    order.extend(pm.iter().cloned());
+                    order.push(n - 1);
+                    let tau_p: Vec<f64> = order.iter().map(|j| tau_f[*j]).collect();
+                    let y_p: Vec<f64> = order.iter().map(|j| y_f[*j]).collect();
+                    if tau_p == tau_f {
+                        continue;
+                    }
+                    acc.eval();
+                    let mut sp = PPSpline::<f64>::new(k, t.clone(), None);
+                    match sp.csolve(&tau_p, &y_p, left_n, right_n, false) {
+                        Err(_) => acc.violate(&format!("site-order/{}/unexpected-error", endkey), idx, cj(), json!({"sites": tau_p}), json!("Err")),
+                        Ok(()) => {
+                            let c = sp.c().as_ref().unwrap();
+                            if (0..n).any(|i| !close_scaled(c[i], cgen[i].f(), 1.0, 1e-11 * cnd * cmaxg)) {
+                                acc.violate(&format!("site-order/{}", endkey), idx, cj(), json!({"sites": tau_p, "order": (["interior reversed", "interior rotated", "first and last interior site swapped"])[pi], "want_c": cgen.iter().map(|r| r.f()).collect::<Vec<_>>()}), json!(c.to_vec()));
+                            }
+                        }
+                    }
+                }
+            }
             let names: Vec<String> = (0..n).map(|j| format!("y{}", j)).collect();
             let tol = 1e-11 * cnd * cgen.iter().map(|r| r.f().abs()).fold(1.0, f64::max);
             {
@@ -723,7 +758,7 @@ pub fn run(ctx: &Ctx, replay_file: Option<String>) -> ! {
          and (2,2)/(1,2) for the natural layout; data = the n unit vectors, a generic vector and the monomials x^d, d<k. \
          Oracle: the EXACT spline (rational inverse of the exact collocation matrix times the data; the model is \
          checked to reproduce the monomials exactly): every value and derivative m<k on every break point and quarter \
-         point (which covers interpolation, end conditions and polynomial reproduction everywhere in the domain); Dual \
+         point (which covers interpolation, end conditions and polynomial reproduction everywhere in the domain); the interior sites listed reversed / rotated / with the outer two swapped give the same coefficients; Dual \
          and Dual2 data: sensitivity to datum j = the unit-data spline, zero Hessian; Dual/Dual2 abscissas on float, \
          Dual and Dual2 splines: first / second derivative of the spline as sensitivities (chain rule with a non-unit \
          gradient and a non-zero Hessian on the abscissa); 3x3 type table of mapped_value; count mismatches and \
